@@ -51,43 +51,7 @@ func runC29(c *Ctx) {
 		}
 	}
 	c.OnlyIn("direct io.Reader.Read (may return fewer bytes than asked)", reads, 1, "util.EnsureRead")
-	if fn := c.Need("util.EnsureRead"); fn != nil {
-		// success (nil or EOF passed through) only when the buffer is full
-		var okRets []ssa.Instruction
-		for _, r := range Returns(fn) {
-			d := c.D(RetVal(r, 1))
-			if d == "nil" {
-				continue // the empty-buffer shortcut, checked below
-			}
-			if strings.HasPrefix(d, "errors.WithStack(φ(nil|") {
-				okRets = append(okRets, r)
-			}
-		}
-		// two such returns: the read-error one (err != nil && !EOF) and the buffer-full one
-		var full []ssa.Instruction
-		for _, r := range okRets {
-			res := c.MustPass(fn, nil, []ssa.Instruction{r}, GCmp("φ(nil|var:j[1])", "!=", "nil"), GFalse("errors.Is(φ(nil|var:j[1]), io.EOF)"))
-			_ = res
-			full = append(full, r)
-		}
-		c.Exists(fn, "EnsureRead has a pass-through return", full, 1)
-		c.MP(fn, "EnsureRead passes a nil/EOF result through only when the buffer is full (or the reader failed)", full, 1,
-			GCmp("var:n", "==", "len(b)"), GFalse("errors.Is(φ(nil|var:j[1]), io.EOF)"))
-		c.MP(fn, "EnsureRead: EOF before the buffer is full is an error", c.ReturnsD(fn, 1, "errors.Errorf(\"insufficient read\", nil)"), 1, GTrue("errors.Is(φ(nil|var:j[1]), io.EOF)"))
-		c.MP(fn, "EnsureRead: nil error without reading only for an empty buffer", c.ReturnsD(fn, 1, "nil"), 1, GCmp("len(b)", "<", "1"))
-		cp := c.CallsD(fn, "copy(b[var:n:], var:j[2])")
-		c.Exists(fn, "EnsureRead appends each chunk at the current offset", cp, 1)
-		if cl := c.ClosureWithCall(fn, "r.Read(*)"); cl != nil {
-			// each chunk asks for no more than what is missing
-			var ms []ssa.Instruction
-			for _, in := range allInstrs(cl) {
-				if mk, ok := in.(*ssa.MakeSlice); ok && c.D(mk.Len) == "(len(b) - var:n)" {
-					ms = append(ms, in)
-				}
-			}
-			c.Exists(cl, "EnsureRead asks for exactly the missing bytes", ms, 1)
-		}
-	}
+	ensureReadRules(c)
 	if fn := c.Need("util.NewBytesFrameReader"); fn != nil {
 		rf := append(c.CallsTo(fn, "io.ReadFull"), c.CallsTo(fn, "util.EnsureRead")...)
 		c.Exists(fn, "frame reader reads the version bytes in full (ReadFull / EnsureRead)", rf, 1)
@@ -174,6 +138,19 @@ func runC29(c *Ctx) {
 			c.MPFrom(fn, nil, "lengthed item: bytes written only after the length part was written", ws[1:2], 1, GOk("w.Write(util.Uint64ToBytes(len(b)))"))
 		}
 		c.MP(fn, "lengthed item: success only after the bytes were written (or the item is empty)", c.SuccessReturns(fn), 1, GOk("w.Write(b)"), GCmp("len(b)", "<", "1"))
+	}
+	if fn := c.Need("util.ReadLength"); fn != nil {
+		// when the 8 bytes arrived (also together with EOF) the answer is the parse of those bytes
+		for _, r := range Returns(fn) {
+			l := c.D(RetVal(r, 1))
+			if l == "0" {
+				c.MP(fn, "length part: a read failure is passed on only if the 8 bytes did not arrive", []ssa.Instruction{r}, 1, GFalse("errors.Is(util.EnsureRead(*)#1, io.EOF)"))
+				continue
+			}
+			c.Report(fn, "length part: the answer is the parse of the 8 bytes read", c.InstrPos(r), l == "util.ReadLengthBytes(var:makeslice[:8])#0" && c.D(RetVal(r, 2)) == "util.ReadLengthBytes(var:makeslice[:8])#1", l+", "+c.D(RetVal(r, 2)))
+			c.MP(fn, "length part: parsed only if the 8 bytes arrived", []ssa.Instruction{r}, 1, GOk("util.EnsureRead(*)"), GTrue("errors.Is(util.EnsureRead(*)#1, io.EOF)"))
+		}
+		c.ArgIs(fn, "length part: exactly 8 bytes are read", c.CallsTo(fn, "util.EnsureRead"), 1, 2, "var:makeslice[:8]")
 	}
 	if fn := c.Need("util.ReadLengthed"); fn != nil {
 		er := c.CallsTo(fn, "util.EnsureRead")
@@ -285,4 +262,62 @@ func runC29(c *Ctx) {
 // globEscape: a descriptor used as a pattern must match literally.
 func globEscape(d string) string {
 	return "re:" + regexp.QuoteMeta(d)
+}
+
+// ensureReadRules (shared by C29 and C30): EnsureRead fills the whole buffer or fails, asking each
+// time for what is still missing.
+func ensureReadRules(c *Ctx) {
+	if fn := c.Need("util.EnsureRead"); fn != nil {
+		// success (nil or EOF passed through) only when the buffer is full
+		var okRets []ssa.Instruction
+		for _, r := range Returns(fn) {
+			d := c.D(RetVal(r, 1))
+			if d == "nil" {
+				continue // the empty-buffer shortcut, checked below
+			}
+			if strings.HasPrefix(d, "errors.WithStack(φ(nil|") {
+				okRets = append(okRets, r)
+			}
+		}
+		// two such returns: the read-error one (err != nil && !EOF) and the buffer-full one
+		var full []ssa.Instruction
+		for _, r := range okRets {
+			res := c.MustPass(fn, nil, []ssa.Instruction{r}, GCmp("φ(nil|var:j[1])", "!=", "nil"), GFalse("errors.Is(φ(nil|var:j[1]), io.EOF)"))
+			_ = res
+			full = append(full, r)
+		}
+		c.Exists(fn, "EnsureRead has a pass-through return", full, 1)
+		c.MP(fn, "EnsureRead passes a nil/EOF result through only when the buffer is full (or the reader failed)", full, 1,
+			GCmp("var:n", "==", "len(b)"), GFalse("errors.Is(φ(nil|var:j[1]), io.EOF)"))
+		c.MP(fn, "EnsureRead: EOF before the buffer is full is an error", c.ReturnsD(fn, 1, "errors.Errorf(\"insufficient read\", nil)"), 1, GTrue("errors.Is(φ(nil|var:j[1]), io.EOF)"))
+		c.MP(fn, "EnsureRead: nil error without reading only for an empty buffer", c.ReturnsD(fn, 1, "nil"), 1, GCmp("len(b)", "<", "1"))
+		cp := c.CallsD(fn, "copy(b[var:n:], var:j[2])")
+		c.Exists(fn, "EnsureRead appends each chunk at the current offset", cp, 1)
+		if cl := c.ClosureWithCall(fn, "r.Read(*)"); cl != nil {
+			// each chunk asks for no more than what is missing
+			var ms []ssa.Instruction
+			for _, in := range allInstrs(cl) {
+				if mk, ok := in.(*ssa.MakeSlice); ok && c.D(mk.Len) == "(len(b) - var:n)" {
+					ms = append(ms, in)
+				}
+			}
+			c.Exists(cl, "EnsureRead asks for exactly the missing bytes", ms, 1)
+			// … computed at the time of the read, from the current count (not a size taken earlier)
+			for _, in := range ms {
+				mk := in.(*ssa.MakeSlice)
+				bo, isBin := stripConv(mk.Len).(*ssa.BinOp)
+				fresh := false
+				if isBin {
+					for _, op := range []ssa.Value{bo.X, bo.Y} {
+						if ld, ok := stripConv(op).(*ssa.UnOp); ok {
+							if fv, ok := ld.X.(*ssa.FreeVar); ok && fv.Name() == "n" {
+								fresh = true
+							}
+						}
+					}
+				}
+				c.Report(cl, "EnsureRead computes the missing size when it reads", c.InstrPos(in), fresh, "the size must be len(b) minus the count read so far, evaluated in the read step")
+			}
+		}
+	}
 }
